@@ -50,6 +50,9 @@ func (c *badRegexpChecker) VisitExpr(x ast.Expr) {
 	if !ok {
 		return
 	}
+	if len(call.Args) == 0 {
+		return // Can't be a regexp package call; probably a namesake
+	}
 
 	switch qualifiedName(call.Fun) {
 	case "regexp.Compile", "regexp.MustCompile":
